@@ -46,7 +46,8 @@ Definition run_float_op (op : list Z) : list Z :=
   end.
 
 (* model 3: one pool with its two abstract order books, stateful (C13, C14) *)
-Record pstate := { p_r0 : Z; p_r1 : Z; p_next : Z; p_sell : list order; p_buy : list order }.
+Record pstate := { p_r0 : Z; p_r1 : Z; p_next : Z; p_sell : list order; p_buy : list order;
+                   p_disk : list Z (* ids of orders present in the committed tree *) }.
 
 Definition enc_fills (fs : list fill) : list Z :=
   Z.of_nat (length fs) :: flat_map (fun f => [fid f; fbuy f; fsell f]) fs.
@@ -62,48 +63,50 @@ Definition pool3_step (st : pstate) (op : list Z) : pstate * list Z :=
   match op with
   | [0; a0; a1] =>
     match create a0 a1 with
-    | Val (l, r0, r1) => ({| p_r0 := r0; p_r1 := r1; p_next := 1; p_sell := []; p_buy := [] |}, [0; l])
+    | Val (l, r0, r1) => ({| p_r0 := r0; p_r1 := r1; p_next := 1; p_sell := []; p_buy := []; p_disk := [] |}, [0; l])
     | _ => (st, [2; 7])
     end
   | [1; dir; b; s; owner; h] =>
     let l := {| oid := p_next st; obuy := b; osell := s; oowner := owner; oheight := h |} in
     if dir =? 1
     then ({| p_r0 := p_r0 st; p_r1 := p_r1 st; p_next := p_next st + 1;
-             p_sell := insert_order true l (p_sell st); p_buy := p_buy st |}, [oid l])
+             p_sell := insert_order true l (p_sell st); p_buy := p_buy st; p_disk := p_disk st |}, [oid l])
     else ({| p_r0 := p_r0 st; p_r1 := p_r1 st; p_next := p_next st + 1;
-             p_sell := p_sell st; p_buy := insert_order false l (p_buy st) |}, [oid l])
+             p_sell := p_sell st; p_buy := insert_order false l (p_buy st); p_disk := p_disk st |}, [oid l])
   | [2; dir; a] =>
     if dir =? 1 then
-      match sell_with_orders_x (p_r0 st) (p_r1 st) (p_sell st) a 0 with
-      | Val t => ({| p_r0 := t_r0 t; p_r1 := t_r1 t; p_next := p_next st; p_sell := t_book t; p_buy := p_buy st |}, 0 :: enc_trade t)
+      match sell_with_orders_x true (p_r0 st) (p_r1 st) (p_sell st) a 0 with
+      | Val t => ({| p_r0 := t_r0 t; p_r1 := t_r1 t; p_next := p_next st; p_sell := t_book t; p_buy := p_buy st; p_disk := p_disk st |}, 0 :: enc_trade t)
       | Nil => (st, [1]) | Panic x => (st, [2; x])
       end
     else
-      match sell_with_orders_x (p_r1 st) (p_r0 st) (p_buy st) a 0 with
-      | Val t => ({| p_r0 := t_r1 t; p_r1 := t_r0 t; p_next := p_next st; p_sell := p_sell st; p_buy := t_book t |}, 0 :: enc_trade t)
+      match sell_with_orders_x false (p_r1 st) (p_r0 st) (p_buy st) a 0 with
+      | Val t => ({| p_r0 := t_r1 t; p_r1 := t_r0 t; p_next := p_next st; p_sell := p_sell st; p_buy := t_book t; p_disk := p_disk st |}, 0 :: enc_trade t)
       | Nil => (st, [1]) | Panic x => (st, [2; x])
       end
   | [3; dir; o] =>
     if dir =? 1 then
-      match buy_with_orders_x (p_r0 st) (p_r1 st) (p_sell st) o o with
-      | Val t => ({| p_r0 := t_r0 t; p_r1 := t_r1 t; p_next := p_next st; p_sell := t_book t; p_buy := p_buy st |}, 0 :: enc_trade t)
+      match buy_with_orders_x true (p_r0 st) (p_r1 st) (p_sell st) o o with
+      | Val t => ({| p_r0 := t_r0 t; p_r1 := t_r1 t; p_next := p_next st; p_sell := t_book t; p_buy := p_buy st; p_disk := p_disk st |}, 0 :: enc_trade t)
       | Nil => (st, [1]) | Panic x => (st, [2; x])
       end
     else
-      match buy_with_orders_x (p_r1 st) (p_r0 st) (p_buy st) o o with
-      | Val t => ({| p_r0 := t_r1 t; p_r1 := t_r0 t; p_next := p_next st; p_sell := p_sell st; p_buy := t_book t |}, 0 :: enc_trade t)
+      match buy_with_orders_x false (p_r1 st) (p_r0 st) (p_buy st) o o with
+      | Val t => ({| p_r0 := t_r1 t; p_r1 := t_r0 t; p_next := p_next st; p_sell := p_sell st; p_buy := t_book t; p_disk := p_disk st |}, 0 :: enc_trade t)
       | Nil => (st, [1]) | Panic x => (st, [2; x])
       end
   | [4; id] =>
+    if negb (existsb (Z.eqb id) (p_disk st)) then (st, [0]) else   (* loadOrder finds nothing on disk *)
     match remove_order id (p_sell st) with
-    | Some (b', l) => ({| p_r0 := p_r0 st; p_r1 := p_r1 st; p_next := p_next st; p_sell := b'; p_buy := p_buy st |}, [osell l])
+    | Some (b', l) => ({| p_r0 := p_r0 st; p_r1 := p_r1 st; p_next := p_next st; p_sell := b'; p_buy := p_buy st; p_disk := p_disk st |}, [osell l])
     | None =>
       match remove_order id (p_buy st) with
-      | Some (b', l) => ({| p_r0 := p_r0 st; p_r1 := p_r1 st; p_next := p_next st; p_sell := p_sell st; p_buy := b' |}, [osell l])
+      | Some (b', l) => ({| p_r0 := p_r0 st; p_r1 := p_r1 st; p_next := p_next st; p_sell := p_sell st; p_buy := b'; p_disk := p_disk st |}, [osell l])
       | None => (st, [0])
       end
     end
-  | [5] => (st, [0])
+  | [5] => ({| p_r0 := p_r0 st; p_r1 := p_r1 st; p_next := p_next st; p_sell := p_sell st; p_buy := p_buy st;
+              p_disk := map oid (p_sell st) ++ map oid (p_buy st) |}, [0])
   | [6; dir] => (st, enc_book (if dir =? 1 then p_sell st else p_buy st))
   | [7] => (st, [0])
   | [8; dir; a] =>   (* CalculateBuyForSellWithOrders (read-only) *)
@@ -123,7 +126,7 @@ Fixpoint run_states {S} (step : S -> list Z -> S * list Z) (st : S) (ops : list 
   | op :: rest => let '(st', out) := step st op in out :: run_states step st' rest
   end.
 
-Definition pool3_init : pstate := {| p_r0 := 0; p_r1 := 0; p_next := 1; p_sell := []; p_buy := [] |}.
+Definition pool3_init : pstate := {| p_r0 := 0; p_r1 := 0; p_next := 1; p_sell := []; p_buy := []; p_disk := [] |}.
 
 Definition dispatch (model : Z) (ops : list (list Z)) : list (list Z) :=
   match model with
